@@ -10,15 +10,19 @@ import c19_corpus, c19_yaml
 
 NINJA_LIBS = ["llbuildNinja", "llbuildBasic", "llvmSupport"]
 CORE_LIBS = ["llbuildCore", "llbuildBasic", "llvmSupport"]
-TARGETS = [  # name, libs, dictionary, weight of the per-target run budget
-    ("fz_lexer", NINJA_LIBS, "ninja.dict", 1.0),
-    ("fz_manifest", NINJA_LIBS, "ninja.dict", 0.6),
-    ("fz_makedeps", CORE_LIBS, "makedeps.dict", 2.0),
-    ("fz_depinfo", CORE_LIBS, "depinfo.dict", 2.0),
+TARGETS = [  # name, libs, dictionary, jobs (of 16 cores), runs per job quick / thorough, runs per process
+    # fz_manifest costs ~1 ms per execution (two parser passes + loader under ASan) and Manifest objects leak by design of the
+    # loader (bump-allocated Commands are never destroyed), so its processes are recycled every 40,000 executions
+    ("fz_manifest", NINJA_LIBS, "ninja.dict", 7, 30000, 900000, 40000),
+    ("fz_lexer", NINJA_LIBS, "ninja.dict", 4, 400000, 12000000, 4000000),
+    ("fz_makedeps", CORE_LIBS, "makedeps.dict", 3, 1500000, 40000000, 10000000),
+    ("fz_depinfo", CORE_LIBS, "depinfo.dict", 2, 3000000, 90000000, 30000000),
 ]
 # fuzzing never uses allocator_may_return_null: an allocation failure must be reported as such, not turned into a null dereference
 FUZZ_ENV = {"ASAN_OPTIONS": "abort_on_error=1:detect_leaks=0:allocator_may_return_null=0:handle_abort=0:symbolize=1",
             "UBSAN_OPTIONS": "print_stacktrace=1:halt_on_error=1"}
+# fuzzing / merging processes: reports are not symbolized (the artifact is re-run alone, symbolized, to obtain the key)
+JOB_ENV = dict(FUZZ_ENV, ASAN_OPTIONS=FUZZ_ENV["ASAN_OPTIONS"].replace("symbolize=1", "symbolize=0"), UBSAN_OPTIONS="print_stacktrace=0:halt_on_error=1:symbolize=0")
 STACK_KB = 8192          # fz_manifest: the usual main-thread stack, fixed explicitly (see the harness header, pass C)
 LIBFUZZER_FLAGS = ["-timeout=10", "-rss_limit_mb=2048", "-max_len=4096", "-print_final_stats=1", "-reload=0"]
 
@@ -37,10 +41,16 @@ def wrap(name, cmd, small_stack=True):
 # ------------------------------------------------------------------ stable keys from a single-input run
 
 def _frames(err):
+    """Function names of the FIRST stack trace of a report (the faulting stack, not the allocation stack), llbuild frames only."""
+    i = err.find("#0 0x")
+    first = err[i:] if i >= 0 else err
+    j = first.find("\n\n")
+    if j >= 0:
+        first = first[:j]
     out = []
-    for fn, path in re.findall(r"#\d+ 0x[0-9a-f]+ in (.+?) (/[^\s:]+)(?::\d+)*", err):
-        if (vlib.REPO + "/") in path or "/harness/fuzz/" in path:
-            out.append(re.sub(r"\(.*", "", fn).strip())
+    for fn, path in re.findall(r"#\d+ 0x[0-9a-f]+ in (.+?) (/[^\s:]+)(?::\d+)*", first):
+        if (vlib.REPO + "/") in path:
+            out.append(re.sub(r"\(.*", "", fn.replace("(anonymous namespace)::", "")).strip())
     return out
 
 
@@ -133,34 +143,51 @@ def parse_stats(err):
 
 
 def fuzz_job(job):
-    """One libFuzzer process chain: restarted (new seed) after an artifact while run budget remains."""
-    name, binp, runs, seed, outdir, seeddir, artdir, dictp, watchdog = job
+    """One chain of libFuzzer processes over one output corpus: a new process (new seed) every `chunk` executions and after
+    every artifact, until the run budget is used."""
+    name, binp, runs, chunk, seed, outdir, seeddir, artdir, dictp, watchdog = job
     os.makedirs(outdir, exist_ok=True)
     os.makedirs(artdir, exist_ok=True)
-    done, restarts, stats, notes = 0, 0, [], []
-    while done < runs and restarts <= 6:
-        cmd = [binp, "-runs=%d" % (runs - done), "-seed=%d" % ((seed + 7919 * restarts) % 2147483647 or 1),
+    done, procs, artifacts, stats, notes = 0, 0, 0, [], []
+    while done < runs and artifacts <= 8:
+        cmd = [binp, "-runs=%d" % min(chunk, runs - done), "-seed=%d" % ((seed + 7919 * procs) % 2147483647 or 1),
                "-artifact_prefix=%s/" % artdir, "-dict=%s" % dictp] + LIBFUZZER_FLAGS + [outdir, seeddir]
-        rc, out, err, to = vlib.run_child(wrap(name, cmd), watchdog, env=FUZZ_ENV)
+        rc, out, err, to = vlib.run_child(wrap(name, cmd), watchdog, env=JOB_ENV)
+        procs += 1
         err = err.decode("utf-8", "replace")
         st = parse_stats(err)
         stats.append(st)
         if to:
             notes.append("watchdog fired on %s" % " ".join(cmd))
             break
-        n = st.get("number_of_executed_units", 0)
-        done += max(n, 1)
-        if rc == 0:
-            break
-        restarts += 1
-        if not re.search(r"Test unit written to|ERROR: |VERIF-VIOLATION", err):
-            notes.append("%s exited %d without an artifact: %s" % (name, rc, err[-300:]))
-            break
-    return dict(name=name, stats=stats, executed=sum(s.get("number_of_executed_units", 0) for s in stats), restarts=restarts,
+        done += max(st.get("number_of_executed_units", 0), 1)
+        if rc != 0:
+            artifacts += 1
+            if not re.search(r"Test unit written to|ERROR: |VERIF-VIOLATION", err):
+                notes.append("%s exited %d without an artifact: %s" % (name, rc, err[-300:]))
+                break
+    return dict(name=name, stats=stats, executed=sum(s.get("number_of_executed_units", 0) for s in stats), processes=procs,
+                stopped_by_artifact=artifacts,
                 cov=max([s.get("cov", 0) for s in stats] or [0]), ft=max([s.get("ft", 0) for s in stats] or [0]),
                 corp=max([s.get("corp", 0) for s in stats] or [0]), notes=notes,
                 slowest=max([s.get("slowest_unit_time_sec", 0) for s in stats] or [0]),
                 peak_rss=max([s.get("peak_rss_mb", 0) for s in stats] or [0]))
+
+
+def merge_seeds(args):
+    """libFuzzer -merge=1: keeps the seeds that add coverage features, each seed is executed once in a crash-resistant child
+    (a crashing seed is saved as an artifact and skipped, so the fuzzing processes are not stopped by it again and again)."""
+    name, binp, src, dst, artdir = args
+    os.makedirs(dst, exist_ok=True)
+    os.makedirs(artdir, exist_ok=True)
+    cmd = [binp, "-merge=1", "-max_len=4096", "-timeout=10", "-rss_limit_mb=2048", "-artifact_prefix=%s/" % artdir, dst, src]
+    rc, out, err, to = vlib.run_child(wrap(name, cmd), 3600, env=JOB_ENV)
+    err = err.decode("utf-8", "replace")
+    m = re.search(r"MERGE-OUTER: (\d+) files", err)
+    kept = len(os.listdir(dst))
+    ok = rc == 0 and not to and m is not None and kept > 0
+    return dict(name=name, ok=ok, executed=int(m.group(1)) if m else 0, kept=kept, attempts=err.count("MERGE-OUTER: attempt"),
+                tail=err[-400:] if not ok else "")
 
 
 def hexdump_witness(name, path, key, info):
@@ -173,24 +200,31 @@ def hexdump_witness(name, path, key, info):
 def fuzz_phase(chk, tier, sd, bins):
     seeddir = os.path.join(sd, "seeds")
     counts = c19_corpus.generate(vlib.REPO, seeddir, chk.seed, tier)
-    jobs_per_target = max(1, vlib.NCPU // len(TARGETS))
-    base_runs = 260000 if tier == "quick" else 12000000        # per job, scaled by the target weight
+    merged = {}
+    for r in vlib.pmap(merge_seeds, [(t[0], bins[t[0]], os.path.join(seeddir, t[0]), os.path.join(sd, "merged", t[0]),
+                                     os.path.join(sd, "artifacts", t[0], "merge")) for t in TARGETS]):
+        merged[r["name"]] = r
+        if not r["ok"]:
+            chk.inconclusive.append("seed corpus merge failed for %s: %s" % (r["name"], r["tail"]))
     jobs = []
-    for ti, (name, libs, dictn, weight) in enumerate(TARGETS):
-        for j in range(jobs_per_target):
+    for ti, (name, libs, dictn, njobs, rq, rt, chunk) in enumerate(TARGETS):
+        nj = max(1, njobs * vlib.NCPU // 16)
+        for j in range(nj):
             seed = (chk.seed * 1000003 + ti * 1009 + j * 17 + 1) % 2147483647 or 1
-            jobs.append((name, bins[name], int(base_runs * weight), seed, os.path.join(sd, "corpus", name, str(j)),
-                         os.path.join(seeddir, name), os.path.join(sd, "artifacts", name, str(j)), os.path.join(seeddir, dictn),
+            jobs.append((name, bins[name], rq if tier == "quick" else rt, chunk, seed, os.path.join(sd, "corpus", name, str(j)),
+                         os.path.join(sd, "merged", name), os.path.join(sd, "artifacts", name, str(j)), os.path.join(seeddir, dictn),
                          3600 if tier == "quick" else 6 * 3600))
     results = vlib.pmap(fuzz_job, jobs, workers=len(jobs))
     per = {}
-    for name, _, _, _ in TARGETS:
+    for name in [t[0] for t in TARGETS]:
         rs = [r for r in results if r["name"] == name]
         units = set()
         cdir = os.path.join(sd, "corpus", name)
         for root, _, files in os.walk(cdir):
             units.update(files)                           # libFuzzer names units by the SHA-1 of their content
-        per[name] = dict(executions=sum(r["executed"] for r in rs), jobs=len(rs), restarts=sum(r["restarts"] for r in rs),
+        per[name] = dict(executions=sum(r["executed"] for r in rs) + merged[name]["executed"], jobs=len(rs),
+                         seed_inputs_kept_by_merge=merged[name]["kept"], merge_child_processes=merged[name]["attempts"], processes=sum(r["processes"] for r in rs),
+                         processes_stopped_by_artifact=sum(r["stopped_by_artifact"] for r in rs),
                          coverage_counters=max(r["cov"] for r in rs), features=max(r["ft"] for r in rs),
                          corpus_units_distinct=len(units), seed_inputs=counts[name], slowest_unit_s=max(r["slowest"] for r in rs),
                          peak_rss_mb=max(r["peak_rss"] for r in rs))
@@ -201,7 +235,7 @@ def fuzz_phase(chk, tier, sd, bins):
             chk.inconclusive.append("%s executed only %d inputs" % (name, per[name]["executions"]))
     # triage: every artifact alone, one per process
     arts = []
-    for name, _, _, _ in TARGETS:
+    for name in [t[0] for t in TARGETS]:
         adir = os.path.join(sd, "artifacts", name)
         for root, _, files in os.walk(adir):
             for f in sorted(files):
@@ -220,12 +254,16 @@ def fuzz_phase(chk, tier, sd, bins):
         elif verdict == "not-judged":
             per[name].setdefault("not_judged", collections.Counter())[key] += 1
         else:
-            per[name]["not_reproduced"] = per[name].get("not_reproduced", 0) + 1
-            chk.inconclusive.append("artifact %s of %s did not reproduce when run alone" % (os.path.basename(path), name))
+            # oom-: the 2 GB limit was reached by what the process had accumulated (the loader leaks its Manifest objects), not by
+            # this input; timeout-/slow-unit-: the input finishes quickly when it has a core for itself. Counted, not judged.
+            kind = os.path.basename(path).split("-")[0]
+            per[name].setdefault("not_reproduced_alone", collections.Counter())[kind] += 1
+            if kind == "crash":
+                chk.inconclusive.append("crash artifact %s of %s did not reproduce when run alone" % (os.path.basename(path), name))
     for k, (name, path, key, info) in sorted(by_key.items()):
         chk.violation(k, hexdump_witness(name, path, key, info))
     for name in per:
-        for f in ("artifacts", "not_judged"):
+        for f in ("artifacts", "not_judged", "not_reproduced_alone"):
             if f in per[name]:
                 per[name][f] = dict(per[name][f])
     return per, dict(tri), len(by_key)
@@ -345,7 +383,7 @@ def run(tier, replay):
     sd = vlib.scratch_dir("c19")
     try:
         vlib.build_flavor("asan")
-        bins = {name: build_target(name, libs) for name, libs, _, _ in TARGETS}
+        bins = {t[0]: build_target(t[0], t[1]) for t in TARGETS}
         per, tri, nviol_f = fuzz_phase(chk, tier, sd, bins)
         ycov, nviol_y, shapes = yaml_phase(chk, tier, sd)
         execs = sum(p["executions"] for p in per.values())
